@@ -2,7 +2,6 @@ package props
 
 import (
 	"bytes"
-	"context"
 	"crypto/sha256"
 	"fmt"
 	"io"
@@ -25,7 +24,7 @@ import (
 	"verifharness/store"
 )
 
-var bg = context.Background()
+var bg = store.Ctx
 
 func protoForCid(c cid.Cid) datamodel.NodePrototype {
 	if c.Prefix().Codec == cid.DagProtobuf {
